@@ -373,8 +373,11 @@ func runC04(c *Ctx) {
 			if !ok {
 				return
 			}
-			cc := callCommon(in)
-			kind, class := enhancedArg(cc.Args[2])
+			ea := replyEnhArg(in)
+			if ea == nil {
+				return // the forwarder supplies the enhanced code itself; its own call is checked
+			}
+			kind, class := enhancedArg(ea)
 			key := c.siteKey(in, "reply constants")
 			if !isConst {
 				if kind == "const" || kind == "none" {
@@ -450,6 +453,9 @@ func runC04(c *Ctx) {
 			continue // pass-through helpers: writeError is checked by C17 R-err-passthrough, protocolError's callers by R-reply-const
 		}
 		cc := callCommon(site)
+		if _, isParam := cc.Args[1].(*ssa.Parameter); isParam && replyForwarder(site.Parent()) != nil {
+			continue // reply helper forwarding its caller's code: the call sites are checked by R-reply-const
+		}
 		d := describe(cc.Args[1])
 		m := regexp.MustCompile(`^dataErrorToStatus\((.*)\)#0$`).FindStringSubmatch(d)
 		ok := m != nil && allowedInner.MatchString(m[1])
